@@ -512,6 +512,40 @@ func c16(x *mon.Ctx) {
 		}
 		x.Note("aliasing", s.name, true, false, prob == "")
 	}
+	// a parsed message the caller keeps is the caller's: later parses (of other inputs, with other trailing bytes) must not
+	// reach into it. Sequential on purpose — a parser that hands out part of a recycled working buffer shows it here without
+	// any help from the scheduler.
+	{
+		rr := x.Rand("c16-kept-message")
+		wq := world.Honest(rr, world.HonestOpts{Shape: world.QuoteShape{AuthLen: 32, ExtraLen: 48}})
+		base := wq.Q.Bytes()
+		n := x.Pick(64, 512)
+		kept := make([]*pb.QuoteV4, n)
+		snap := make([]*pb.QuoteV4, n)
+		bad := 0
+		for i := 0; i < n; i++ {
+			in := append([]byte(nil), base...)
+			rr.Read(in[len(in)-48:]) // other trailing bytes each time, same length
+			a, err := abi.QuoteToProto(in)
+			if err != nil {
+				x.Broken("kept-message: honest quote with trailing bytes does not parse: " + err.Error())
+				break
+			}
+			kept[i] = a.(*pb.QuoteV4)
+			snap[i] = proto.Clone(kept[i]).(*pb.QuoteV4)
+			for j := 0; j <= i; j++ {
+				if snap[j] != nil && !proto.Equal(kept[j], snap[j]) {
+					if bad < 3 {
+						x.Violation("no-write/kept-parsed-message", fmt.Sprintf("message%d-after-parse%d", j, i), fmt.Sprintf("the message returned by parse %d changed when input %d (same length, other trailing bytes) was parsed: the parser handed out memory it goes on using", j, i), "none", nil)
+					}
+					bad++
+					snap[j] = nil
+				}
+			}
+			x.Note("no-write/kept-parsed-message", fmt.Sprint(i), true, false, true)
+		}
+		x.Require("no-write/kept-parsed-message", n, 0, n)
+	}
 	x.Require("no-write/parsed", 20, 5, 60)
 	x.Require("no-write/built-with-spare", 20, 5, 60)
 	x.Require("no-write/odd-sized-options", 0, 0, 400)
